@@ -471,3 +471,29 @@ func (d *Dev) DiffOutside(o *Dev, lo, hi int64) int64 {
 	}
 	return first
 }
+
+// Image is a serialisable copy of the device contents.
+type Image struct {
+	Size  int64
+	Pages map[int64][]byte
+}
+
+func (d *Dev) Export() Image {
+	d.mu.RLock()
+	defer d.mu.RUnlock()
+	im := Image{Size: d.size, Pages: make(map[int64][]byte, len(d.pages))}
+	for k, v := range d.pages {
+		if !allZero(v) {
+			im.Pages[k] = append([]byte(nil), v...)
+		}
+	}
+	return im
+}
+
+func FromImage(im Image) *Dev {
+	d := New(im.Size)
+	for k, v := range im.Pages {
+		d.pages[k] = append([]byte(nil), v...)
+	}
+	return d
+}
